@@ -27,7 +27,7 @@ def cases(draw):
             "streamline": draw(st.integers(0, 3)) == 0,
             "debug": draw(st.integers(0, 4)) == 0,  # verbose mode: must not change what is computed
             "reuse": draw(st.integers(0, 2)) == 0,  # re-enter the previous Calibration object instead of a fresh one
-            "batches": draw(st.lists(st.tuples(st.integers(-3, 3), st.sampled_from(["normal", "normal", "normal", "absmax-is-qmax", "same", "refill"])), min_size=1, max_size=4)),
+            "batches": draw(st.lists(st.tuples(st.integers(-3, 3), st.sampled_from(["normal", "normal", "normal", "absmax-is-qmax", "same", "refill", "tail"])), min_size=1, max_size=4)),
         })
     return {
         "model": draw(st.sampled_from(MODELS)),
@@ -183,7 +183,15 @@ def _exec_case(case):
                             x = x / x.abs().max().clamp_min(1e-30) * qmax
                             x.reshape(-1)[0] = qmax
                             x = x.clamp(-qmax, qmax).to(dtype)
-                    last_batch = x
+                    target = model
+                    if kind == "tail" and len(model) > 1 and isinstance(model[-1], (torch.nn.Linear, torch.nn.Conv2d)):
+                        # the LAST module calibrated on its own with a float batch (a head fine-tuned / calibrated separately): the
+                        # modules that see no batch keep their scales
+                        target = model[-1]
+                        tshape = (target.in_features,) if isinstance(target, torch.nn.Linear) else (target.in_channels, 5, 5)
+                        x = M.batch(tshape, dtype, g, bsz=3, mag=10.0**e)
+                    else:
+                        last_batch = x
                     mags.append(float(x.abs().max()))
                     fed = x
                     if case["model"] == "lone-q-input":
@@ -192,7 +200,7 @@ def _exec_case(case):
                     seen.clear()
                     before = {n: (m.input_scale.detach().clone(), m.output_scale.detach().clone(), m.activation_qtype) for n, m in qmods}
                     with torch.set_grad_enabled(not case["no_grad"]):
-                        y = cut(model, fed)
+                        y = cut(target, fed)
                     if isinstance(y, Raised):
                         return out.fail(f"calibration-forward-raises:{y.type}", y.text)
                     nb += 1
@@ -201,7 +209,7 @@ def _exec_case(case):
                         if not active or n not in seen:
                             # activations switched off (streamlining): the module must keep its scales
                             if not torch.equal(m.input_scale, before[n][0]) or not torch.equal(m.output_scale, before[n][1]):
-                                out.fail("ema/disabled-module-scale-moved", f"{n}: activations are off but its scales changed")
+                                out.fail("ema/disabled-module-scale-moved", f"{n}: {'it saw no batch' if active else 'activations are off'} but its scales changed")
                             continue
                         inp = seen[n]
                         for which in ("in", "out"):
